@@ -72,6 +72,7 @@ func witnessConfigs() []*Config {
 		{Name: "w-vp8+opus-2key", Codec: "vp8", V: []VF{k(0, 1, 1), k(0, 1)}, A: []int{1, 1}, AOff: 5},
 		{Name: "w-vp8-jump", Codec: "vp8", V: []VF{k(0, 1), d(1), d(1)}, Jump: 1},
 		{Name: "w-vp8-pre512", Codec: "vp8", PreN: 257, V: []VF{d(1)}},
+		{Name: "w-vp8-2+2-behind-viewer", Codec: "vp8", V: []VF{k(0, 1, 1), d(1, 1)}, Viewer: true},
 	}
 }
 
@@ -91,6 +92,7 @@ func configs() []*Config {
 		{Name: "vp8-pre512", Codec: "vp8", PreN: 257, V: []VF{d(1, 1), d(1, 1, 1), d(1)}},
 		{Name: "opus-pre", PreA: 94, PreALoss: 31, A: []int{1, 1, 1, 1, 1, 1}},
 		{Name: "vp8+opus-lostkey", Codec: "vp8", PreN: 400, PreKeyLost: true, V: []VF{k(0, 1), d(1), d(1)}, A: []int{1, 1, 1, 1, 1}, AOff: 5},
+		{Name: "vp8-a-behind-viewer", Codec: "vp8", V: []VF{k(0, 1200, 1), d(2), d(1, 1200, 2), d(1)}, Viewer: true},
 		{Name: "vp9", Codec: "vp9", V: []VF{k(0, 1, 2), d(1), d(1200, 1)}},
 		{Name: "h264", Codec: "h264", V: []VF{k(0, 2, 2), d(2), d(2, 1200, 2)}},
 	}
